@@ -92,6 +92,8 @@ class _RoundTrip(Contract):
         st.attrs = {}
         for a in k['attrs']:
             st.attrs[a] = e.int(f'attr_{a}') if a in INT_ATTRS else Tok(a.lower())
+            if a.endswith('SYMBOL') and e.branch(e.bool(f'{a.lower()}_is_empty'), 'gene without a symbol'):
+                st.attrs[a] = ''        # a gene without a symbol: the writers emit KEY= and the line must still read back as it was
         if 'END' in st.attrs:
             st.attrs['END'] = end
         loc = SymObj('FeatureLocation', start=st.start, end=end, strand=None, seqname=Tok('gene_id'), reading_frame_index=None,
@@ -126,7 +128,7 @@ for _k in KINDS:
 # circRNA records
 # ----------------------------------------------------------------------------
 class _CircRoundTrip(Contract):
-    path, qualname, props = CIO, 'line_to_circ_model', ('C13',)
+    path, qualname, props = CIO, 'line_to_circ_model', ('C13', 'C17')       # C17: the record parseCIRCexplorer writes reads back as the reported blocks
     nfrag = 1
     models = (install_text,)
     assumptions = ('the number of fragments is enumerated (1, 2, 3; all values symbolic): the per-fragment code is the same for every count',)
@@ -149,6 +151,10 @@ class _CircRoundTrip(Contract):
         st.model = SymObj('CircRNAModel', gene_id=Tok('gene_id'), fragments=frags, intron=list(st.intron), id=Tok('circ_id'),
                           transcript_id=Tok('tx_id'), gene_name=Tok('symbol'), gene_locations=[], genomic_position=Tok('chr:start:end'),
                           backsplicing_site=None)
+        if e.branch(e.bool('model_made_by_a_parser'), 'back-splicing site known'):
+            # a model built by parseCIRCexplorer carries its back-splicing site (any interval): the line must not depend on it
+            st.model.fields['backsplicing_site'] = SymObj('FeatureLocation', start=e.int('backsplice_start'), end=e.int('backsplice_end'), strand=None, seqname=Tok('gene_id'),
+                                                          reading_frame_index=None, start_offset=0, end_offset=0, ref=None, ref_db=None)
         st.line1 = I.call_method(st.model, 'to_string', [], {})
         st.args = [st.line1]
         self._cur = st
@@ -495,6 +501,14 @@ class ValidateGvfIndex(Contract):
             reg.ext_('open', lambda I, a, k: IdxFile() if (len(a) > 1 and a[1] == 'rt') else SymObj('File', path=a[0]))
             reg.func_('moPepGen/__init__.py', 'check_sha512', lambda I, a, k: c._cur.actual)
             reg.func_('moPepGen/util/common.py', 'check_sha512', lambda I, a, k: c._cur.actual)
+            # file metadata (modification times, sizes) are arbitrary: they say nothing about the content
+            mk_stat = lambda I: SymObj('StatResult13', st_mtime=I.e.int('st_mtime'), st_size=I.e.int('st_size'), st_ctime=I.e.int('st_ctime'), st_mtime_ns=I.e.int('st_mtime_ns'))
+            reg.ext_('pathlib.Path', lambda I, a, k: SymObj('PathStub13', of=a[0]))
+            reg.method_('PathStub13', 'stat', lambda I, o, a, k: mk_stat(I))
+            reg.method_('PathStub13', 'exists', lambda I, o, a, k: True)
+            reg.ext_('os.stat', lambda I, a, k: mk_stat(I))
+            reg.ext_('os.path.getmtime', lambda I, a, k: I.e.int('st_mtime'))
+            reg.ext_('os.path.getsize', lambda I, a, k: I.e.int('st_size'))
         return (inst,)
 
     def has_checksum(self):
